@@ -632,7 +632,7 @@ func ruleKeys(c *Ctx) *RuleResult {
 		r.Instances++
 		key := "less|" + fname(less)
 		if ad.latch < 0 {
-			r.viol(key, c.pos(less.Pos()), fname(less), "the sort adapter has no failure latch (bool or error field): Less cannot report an ill-typed key or a failed evaluation")
+			r.viol(key, c.pos(less.Pos()), fname(less), "the sort adapter has no failure latch (bool or error field, or captured variable of a comparison literal): Less cannot report an ill-typed key or a failed evaluation")
 			continue
 		}
 		if ad.opaque {
@@ -650,7 +650,7 @@ func ruleKeys(c *Ctx) *RuleResult {
 					x.hypFns[c.A.Exec] = true
 					h := newHeap()
 					id := ad.object(c, h, AV{k: 'L', tri: 2, atoms: AArrMix, elemK: 'I', prov: "items"}, choice)
-					x.run(less, []AV{{k: 'P', tri: 2, obj: id}, {k: 'N'}, {k: 'N'}}, h, pathInfo{}, func(rets []AV, h2 *Heap, p pathInfo, fin *frame) {
+					x.run(less, ad.callArgs(x, h, id, AV{k: 'N'}, AV{k: 'N'}), h, pathInfo{}, func(rets []AV, h2 *Heap, p pathInfo, fin *frame) {
 						// only paths where both evaluations succeeded matter here (errors: E-DISC)
 						for _, hc := range p.calls {
 							if hc.ret.atoms == ANull && hc.ret.prov == "" {
